@@ -63,6 +63,10 @@ func omnibus(run *Run, o Omni, visit Visit) {
 			}
 		}
 		scs = append(scs, blockAddrScenario(r))
+		if bi%4 == 1 {
+			// implied origins at the root and in nested bodies, several references to one implied address per body (own random stream)
+			scs = append(scs, impliedScenario(rand.New(rand.NewSource(subSeed(run.Res.Seed, 555000+bi)))))
+		}
 		if bi < 4 {
 			// a missing value behind every constraint kind, every offset (deterministic)
 			scs = append(scs, missingValueKindsScenario(bi))
